@@ -210,7 +210,9 @@ func killnow(t *rt.Thread, c *rt.GoCont) (next rt.Cont, err error) {
 		return nil, err
 	}
 	ctx.SetStopLevel(rt.HardStop)
-	return nil, nil
+	// This is only reached when ctx is not the running context (killing that
+	// one does not return): the caller carries on.
+	return c.Next(), nil
 }
 
 func stopnow(t *rt.Thread, c *rt.GoCont) (next rt.Cont, err error) {
